@@ -2,6 +2,618 @@
 
 package main
 
+import (
+	"fmt"
+	"strings"
+)
+
+// Generator for C17.  g.N = number of independent histories (cases).
+//
+// Every case sets up runtime metadata for one or two channels, creates a few
+// migration tasks and then walks them through the leader-transfer /
+// replica-replace protocols with `*` (fresh) guards, interleaved with
+// deviations: stale guards, stale / partial / foreign proofs, environment
+// metadata changes between drain and commit, expired fences, aborts at every
+// phase, free-form advance rewinds, cross-channel runtime guards, terminal
+// creates, GC and multi-command batches.  The generator never looks at results;
+// it only tracks the phase it INTENDS each task to be in.
+
+type c17GTask struct {
+	c, id    int
+	kind     int
+	phase    int
+	emb      bool
+	dead     bool // the generator asked for a terminal state
+	badProof bool // the stored proof is believed not to match the channel's meta
+	forced   bool // a forced terminal advance was already sent
+	src, tgt int
+}
+
+type c17GMeta struct {
+	set      bool
+	leader   int
+	replicas []int
+	isr      []int
+}
+
+type c17Gen struct {
+	g     *Gen
+	tasks []*c17GTask
+	metas [3]c17GMeta
+	dev   bool // a deviation was injected into the command being built
+}
+
+const c17G = "* * * * *"
+
+func c17R(rc int) string { return fmt.Sprintf("%d * * * * * *", rc) }
+
+func (x *c17Gen) r() *Rand { return x.g.R }
+
+// staleGuard replaces one field of a fresh guard by a literal.
+func (x *c17Gen) guard() string {
+	if !x.r().Chance(5) {
+		return c17G
+	}
+	x.dev = true
+	x.g.Count("dev:stale-task-guard")
+	f := strings.Fields(c17G)
+	i := x.r().Intn(len(f))
+	switch i {
+	case 0:
+		f[i] = fmt.Sprint(x.r().Range(0, 6))
+	case 1:
+		f[i] = fmt.Sprint([]int{0, 1, 3, 4, 6, 7, 20, 22, 25, 26, 27}[x.r().Intn(11)])
+	default:
+		f[i] = fmt.Sprint(x.r().Range(0, 12))
+	}
+	return strings.Join(f, " ")
+}
+
+func (x *c17Gen) rtguard(c int) string {
+	rc := c
+	if x.r().Chance(3) {
+		x.dev = true
+		x.g.Count("dev:cross-channel-rtguard")
+		rc = 3 - c
+	}
+	f := strings.Fields(c17R(rc))
+	if x.r().Chance(5) {
+		x.dev = true
+		x.g.Count("dev:stale-runtime-guard")
+		i := 1 + x.r().Intn(6)
+		f[i] = fmt.Sprint(x.r().Range(0, 4))
+	}
+	return strings.Join(f, " ")
+}
+
+func (x *c17Gen) pickNot(from []int, not ...int) int {
+	var c []int
+	for _, v := range from {
+		ok := true
+		for _, n := range not {
+			if v == n {
+				ok = false
+			}
+		}
+		if ok {
+			c = append(c, v)
+		}
+	}
+	if len(c) == 0 {
+		return x.r().Range(1, 5)
+	}
+	return c[x.r().Intn(len(c))]
+}
+
+func c17Join(xs []int) string {
+	if len(xs) == 0 {
+		return "-"
+	}
+	s := make([]string, len(xs))
+	for i, v := range xs {
+		s[i] = fmt.Sprint(v)
+	}
+	return strings.Join(s, ",")
+}
+
+// setMeta emits an environment metadata write.  Fence fields `*` keep the stored fence.
+func (x *c17Gen) setMeta(c int, mode string) string {
+	r := x.r()
+	m := &x.metas[c]
+	switch mode {
+	case "fresh":
+		n := r.Range(2, 4)
+		perm := []int{1, 2, 3, 4, 5}
+		for i := range perm {
+			j := i + r.Intn(len(perm)-i)
+			perm[i], perm[j] = perm[j], perm[i]
+		}
+		m.replicas = append([]int(nil), perm[:n]...)
+		k := r.Range(2, n)
+		m.isr = append([]int(nil), m.replicas[:k]...)
+		m.leader = m.isr[0]
+		m.set = true
+		minisr := r.Range(1, k)
+		if r.Chance(8) {
+			minisr = r.Range(0, n+1)
+		}
+		for _, t := range x.tasks {
+			if t.c == c {
+				t.badProof = true
+			}
+		}
+		return fmt.Sprintf("setmeta %d %d %d %d %d %d %s %s 0 0 0 0", c, r.Range(1, 3), r.Range(1, 3), m.leader, minisr, 100, c17Join(m.replicas), c17Join(m.isr))
+	case "bump": // same membership and fence, newer epochs / other leader: makes stored proofs stale
+		if !m.set {
+			return x.setMeta(c, "fresh")
+		}
+		if r.Chance(40) {
+			m.leader = m.isr[r.Intn(len(m.isr))]
+		}
+		for _, t := range x.tasks {
+			if t.c == c {
+				t.badProof = true
+			}
+		}
+		return fmt.Sprintf("setmeta %d %d %d %d %d %d %s %s * * * *", c, r.Range(2, 5), r.Range(2, 6), m.leader, 1, 150, c17Join(m.replicas), c17Join(m.isr))
+	case "foreignfence": // a fence held by some other token / version
+		if !m.set {
+			return x.setMeta(c, "fresh")
+		}
+		return fmt.Sprintf("setmeta %d %d %d %d %d %d %s %s %d %d %d %d", c, r.Range(1, 3), r.Range(1, 3), m.leader, 1, 100, c17Join(m.replicas), c17Join(m.isr),
+			r.Range(1, 4), r.Range(1, 3), r.Range(0, 2), []int{0, 200, 400}[r.Intn(3)])
+	default: // arbitrary, often invalid
+		reps := []int{}
+		for i := 0; i < r.Range(0, 4); i++ {
+			reps = append(reps, r.Range(1, 5))
+		}
+		isr := []int{}
+		for i := 0; i < r.Range(0, 3); i++ {
+			isr = append(isr, r.Range(1, 5))
+		}
+		m.set = false
+		return fmt.Sprintf("setmeta %d %d %d %d %d %d %s %s %d %d %d %d", c, r.Range(0, 3), r.Range(0, 3), r.Range(0, 5), r.Range(0, 4), r.Range(0, 200),
+			c17Join(reps), c17Join(isr), r.Range(0, 2), r.Range(0, 2), r.Range(0, 2), []int{0, 200}[r.Intn(2)])
+	}
+}
+
+func (x *c17Gen) find(c, id int) *c17GTask {
+	for _, t := range x.tasks {
+		if t.c == c && t.id == id {
+			return t
+		}
+	}
+	return nil
+}
+
+// live returns the task the generator believes is active on channel c.
+func (x *c17Gen) live(c int) *c17GTask {
+	for _, t := range x.tasks {
+		if t.c == c && !t.dead {
+			return t
+		}
+	}
+	return nil
+}
+
+// create emits a create / createg.  Mostly for a channel without a live task
+// and an unused id; sometimes colliding on purpose.
+func (x *c17Gen) create() string {
+	r := x.r()
+	c := 1
+	if x.metas[2].set && (x.live(1) != nil || r.Chance(40)) {
+		c = 2
+	}
+	if x.live(c) != nil {
+		x.g.Count("create:while-active-exists")
+	}
+	id := 0
+	for k := 1; k <= 4; k++ {
+		if x.find(c, k) == nil {
+			id = k
+			break
+		}
+	}
+	if id == 0 || r.Chance(10) {
+		id = r.Range(1, 4)
+	}
+	m := x.metas[c]
+	kind := []int{1, 2, 3, 1, 2, 2}[r.Intn(6)]
+	if r.Chance(2) {
+		kind = r.Range(0, 4)
+	}
+	t := &c17GTask{c: c, id: id, kind: kind, phase: 1}
+	status := []int{1, 1, 2}[r.Intn(3)]
+	comp := 0
+	des := 0
+	if kind == 2 {
+		t.src = x.pickNot(m.replicas, m.leader)
+		t.tgt = x.pickNot([]int{1, 2, 3, 4, 5}, m.replicas...)
+		if r.Chance(6) {
+			t.src = m.leader
+		}
+		if r.Chance(6) {
+			t.tgt = x.pickNot(m.replicas)
+		}
+	} else {
+		t.src = m.leader
+		t.tgt = x.pickNot(m.isr, m.leader)
+		des = t.tgt
+		if r.Chance(6) {
+			des = r.Range(0, 5)
+		}
+	}
+	if r.Chance(6) { // start somewhere else in the protocol
+		t.phase = []int{2, 3, 6, 7, 20, 22, 25, 26, 27}[r.Intn(9)]
+		x.g.Count("create:mid-protocol")
+	}
+	if r.Chance(6) { // terminal create
+		status = r.Range(4, 6)
+		comp = r.Range(0, 60)
+		t.dead = true
+		x.g.Count("create:terminal")
+	}
+	ftok, fver, funtil := 0, 0, 0
+	if r.Chance(4) {
+		ftok, fver, funtil = r.Range(0, 3), r.Range(0, 2), []int{0, 200}[r.Intn(2)]
+		x.g.Count("create:with-fence-fields")
+	}
+	lit := fmt.Sprintf("%d %d %d %d %d %d %d %d %d %d %d 0 0 0 0 0 0 0 0 0 0 0 %d %d", c, id, kind, status, t.phase, t.src, t.tgt, des, ftok, fver, funtil, 10, comp)
+	if old := x.find(c, id); old == nil {
+		if x.live(c) == nil || t.dead {
+			x.tasks = append(x.tasks, t)
+		}
+	} else {
+		x.g.Count("create:id-collision")
+	}
+	if r.Chance(40) {
+		rg := x.rtguard(c)
+		if r.Chance(4) { // guard for the other channel: invalid argument
+			rg = c17R(3 - c)
+		}
+		return "createg " + lit + " " + rg
+	}
+	return "create " + lit
+}
+
+func (x *c17Gen) advance(t *c17GTask, st, ph int, proof string, embdes int, comp string) string {
+	return fmt.Sprintf("advance %d %d %s %d %d ^ %s %s %d", t.c, t.id, x.guard(), st, ph, comp, proof, embdes)
+}
+
+const c17NoProof = "0 0 0 0 0 0 0"
+
+// proof returns proof tokens; bad = the generator expects the cutover to refuse it.
+func (x *c17Gen) proof() (string, bool) {
+	r := x.r()
+	switch r.Pick(76, 5, 5, 5, 5, 4) {
+	case 0:
+		return fmt.Sprintf("%d %d * * * * *", 10, r.Range(5, 10)), false
+	case 1:
+		x.g.Count("dev:proof-hw>leo")
+		return "5 9 * * * * *", true
+	case 2:
+		x.g.Count("dev:proof-partial")
+		f := strings.Fields("10 10 * * * * *")
+		f[2+r.Intn(5)] = "0"
+		return strings.Join(f, " "), true
+	case 3:
+		x.g.Count("dev:proof-wrong-field")
+		f := strings.Fields("10 10 * * * * *")
+		i := 2 + r.Intn(5)
+		if i == 3 {
+			i = 4
+		}
+		f[i] = "^"
+		return strings.Join(f, " "), true
+	case 4:
+		x.g.Count("dev:proof-literal")
+		return fmt.Sprintf("10 10 %d %d %d %d %d", r.Range(1, 5), r.Range(1, 4), r.Range(1, 4), r.Range(1, 4), r.Range(1, 3)), true
+	default:
+		x.g.Count("dev:proof-missing")
+		return c17NoProof, true
+	}
+}
+
+func (x *c17Gen) nowTok() string {
+	if x.r().Chance(8) {
+		x.dev = true
+		x.g.Count("dev:fence-expired-now")
+		return "900"
+	}
+	return "50"
+}
+
+// scripted emits the next protocol step of t (as the generator believes it).
+// If a deviation was injected, the believed phase is NOT advanced, so the next
+// scripted step retries the same step with fresh guards.
+func (x *c17Gen) scripted(t *c17GTask) string {
+	saved := *t
+	x.dev = false
+	cmd := x.scriptedStep(t)
+	if x.dev {
+		bp := t.badProof
+		*t = saved
+		t.badProof = bp
+		x.g.Count("step:scripted-with-deviation")
+	}
+	return cmd
+}
+
+func (x *c17Gen) scriptedStep(t *c17GTask) string {
+	r := x.r()
+	lt := t.kind == 1 || t.kind == 3 || (t.kind == 2 && t.emb)
+	c, id := t.c, t.id
+	pre := fmt.Sprintf("%d %d", c, id)
+	reproof := func() string {
+		// the stored proof is believed stale: drain again (same phase, fresh proof)
+		x.g.Count("script:re-drain")
+		t.badProof = false
+		return x.advance(t, 2, t.phase, fmt.Sprintf("12 %d * * * * *", r.Range(6, 12)), 0, "0")
+	}
+	if lt {
+		switch t.phase {
+		case 1:
+			t.phase = 2
+			return x.advance(t, 2, 2, c17NoProof, 0, "0")
+		case 2:
+			t.phase = 3
+			return x.advance(t, 2, 3, c17NoProof, 0, "0")
+		case 3:
+			t.phase = 4
+			return fmt.Sprintf("setfence %s %s %s 2 4 %d %d ^", pre, x.guard(), x.rtguard(c), r.Range(1, 2), []int{200, 300}[r.Intn(2)])
+		case 4:
+			t.phase = []int{5, 6}[r.Intn(2)]
+			p, bad := x.proof()
+			t.badProof = bad
+			return x.advance(t, 2, t.phase, p, 0, "0")
+		case 5:
+			t.phase = 6
+			return x.advance(t, 2, 6, c17NoProof, 0, "0")
+		case 6:
+			if t.badProof && r.Chance(60) {
+				return reproof()
+			}
+			nle := "^"
+			if r.Chance(6) {
+				nle = "*"
+				x.dev = true
+				x.g.Count("dev:commit-same-epoch")
+			}
+			des := "*"
+			if r.Chance(5) {
+				des = fmt.Sprint(r.Range(1, 5))
+				x.dev = true
+				x.g.Count("dev:commit-other-leader")
+			}
+			if t.badProof {
+				x.dev = true
+				x.g.Count("dev:commit-with-bad-proof")
+			}
+			t.phase = 7
+			return fmt.Sprintf("commit %s %s %s 2 7 %s %s 300 %s ^", pre, x.guard(), x.rtguard(c), des, nle, x.nowTok())
+		case 7:
+			if t.kind == 2 {
+				t.phase, t.emb = 20, false
+				x.g.Count("script:embedded-handoff")
+				return fmt.Sprintf("clearfence %s %s %s 2 20 ^ 0", pre, x.guard(), x.rtguard(c))
+			}
+			t.phase, t.dead = 27, true
+			return fmt.Sprintf("clearfence %s %s %s 4 27 ^ %d", pre, x.guard(), x.rtguard(c), r.Range(20, 60))
+		}
+	} else {
+		switch t.phase {
+		case 1:
+			if r.Chance(30) { // start an embedded leader transfer
+				t.emb, t.phase = true, 2
+				x.g.Count("script:embedded-transfer")
+				return x.advance(t, 2, 2, c17NoProof, x.pickNot(x.metas[c].isr, x.metas[c].leader), "0")
+			}
+			t.phase = 20
+			return x.advance(t, 2, 20, c17NoProof, 0, "0")
+		case 20:
+			t.phase = 21
+			return fmt.Sprintf("addlearner %s %s %s 2 21 * ^", pre, x.guard(), x.rtguard(c))
+		case 21:
+			t.phase = 22
+			return x.advance(t, 2, 22, c17NoProof, 0, "0")
+		case 22:
+			t.phase = 23
+			return fmt.Sprintf("setfence %s %s %s 2 23 %d %d ^", pre, x.guard(), x.rtguard(c), r.Range(1, 2), []int{200, 300}[r.Intn(2)])
+		case 23:
+			t.phase = []int{5, 25}[r.Intn(2)]
+			p, bad := x.proof()
+			t.badProof = bad
+			return x.advance(t, 2, t.phase, p, 0, "0")
+		case 5:
+			t.phase = 25
+			return x.advance(t, 2, 25, c17NoProof, 0, "0")
+		case 25:
+			if t.badProof && r.Chance(60) {
+				return reproof()
+			}
+			if t.badProof {
+				x.dev = true
+				x.g.Count("dev:promote-with-bad-proof")
+			}
+			t.phase = 26
+			return fmt.Sprintf("promote %s %s %s 2 26 * * %s ^", pre, x.guard(), x.rtguard(c), x.nowTok())
+		case 26:
+			t.phase, t.dead = 27, true
+			return fmt.Sprintf("clearfence %s %s %s 4 27 ^ %d", pre, x.guard(), x.rtguard(c), r.Range(20, 60))
+		}
+	}
+	// replay of the terminal clear exactly as first sent (old guard, same stamps): the idempotent path
+	x.g.Count("script:clearfence-replay")
+	t.dead = true
+	old := 7
+	if t.kind == 2 {
+		old = 26
+	}
+	return fmt.Sprintf("clearfence %s 2 %d * * ~ %d * * * %d ~ * 4 27 * *", pre, old, c, id)
+}
+
+var c17Phases = []int{1, 2, 3, 4, 5, 6, 7, 20, 21, 22, 23, 25, 26, 27}
+
+// random emits an arbitrary command on t.
+func (x *c17Gen) random(t *c17GTask) string {
+	r := x.r()
+	c, id := t.c, t.id
+	pre := fmt.Sprintf("%d %d", c, id)
+	switch r.Pick(14, 10, 8, 8, 6, 6, 6, 6, 6, 6, 4, 8) {
+	case 0: // abort
+		x.g.Count("dev:abort")
+		st := 6
+		if r.Chance(4) {
+			st = 5
+		}
+		comp := fmt.Sprint(r.Range(20, 60))
+		if r.Chance(4) {
+			comp = "0"
+		}
+		x.dev = false
+		cmd := fmt.Sprintf("abort %s %s %s %d * ^ %s", pre, x.guard(), x.rtguard(c), st, comp)
+		if !x.dev && st == 6 && comp != "0" && t.phase != 7 && t.phase != 26 && t.phase != 27 {
+			t.dead = true
+		}
+		return cmd
+	case 1: // free-form advance to an arbitrary phase (rewind / skip)
+		x.g.Count("dev:advance-arbitrary-phase")
+		ph := c17Phases[r.Intn(len(c17Phases))]
+		t.phase = ph
+		st := 2
+		comp := "0"
+		if r.Chance(15) {
+			st = r.Range(3, 6)
+			if st >= 4 {
+				comp = fmt.Sprint(r.Range(0, 50))
+				t.dead = true
+			}
+		} else if t.dead {
+			t.dead = false
+			x.g.Count("dev:advance-reactivate")
+		}
+		return x.advance(t, st, ph, c17NoProof, 0, comp)
+	case 2: // claim
+		x.g.Count("op:claim-variants")
+		now := r.Range(0, 60)
+		return fmt.Sprintf("claim %s %s * * %d %d %d ^", pre, x.guard(), r.Range(0, 3), now+r.Range(0, 40), now)
+	case 3: // reset an (expired?) fence
+		x.g.Count("dev:resetfence")
+		now := []int{50, 900, 900}[r.Intn(3)]
+		ph := []int{2, 3, 22}[r.Intn(3)]
+		if now == 900 {
+			t.phase = ph
+		}
+		return fmt.Sprintf("resetfence %s %s %s 2 %d %d ^", pre, x.guard(), x.rtguard(c), ph, now)
+	case 4: // fence renewal / out-of-phase set
+		x.g.Count("dev:setfence-any-phase")
+		ph := "*"
+		if r.Chance(40) {
+			ph = fmt.Sprint(c17Phases[r.Intn(len(c17Phases))])
+		}
+		t.badProof = true
+		return fmt.Sprintf("setfence %s %s %s 2 %s %d %d ^", pre, x.guard(), x.rtguard(c), ph, r.Range(0, 2), []int{0, 200, 300}[r.Intn(3)])
+	case 5: // commit out of phase
+		x.g.Count("dev:commit-any-phase")
+		return fmt.Sprintf("commit %s %s %s 2 7 * ^ 300 %s ^", pre, x.guard(), x.rtguard(c), x.nowTok())
+	case 6:
+		x.g.Count("dev:promote-any-phase")
+		return fmt.Sprintf("promote %s %s %s 2 26 * * %s ^", pre, x.guard(), x.rtguard(c), x.nowTok())
+	case 7:
+		x.g.Count("dev:addlearner-any-phase")
+		return fmt.Sprintf("addlearner %s %s %s 2 21 * ^", pre, x.guard(), x.rtguard(c))
+	case 8:
+		x.g.Count("dev:clearfence-any-phase")
+		if r.Chance(50) {
+			return fmt.Sprintf("clearfence %s %s %s 4 27 ^ %d", pre, x.guard(), x.rtguard(c), r.Range(0, 60))
+		}
+		return fmt.Sprintf("clearfence %s %s %s 2 20 ^ 0", pre, x.guard(), x.rtguard(c))
+	case 9: // advance that only stores a proof
+		x.g.Count("dev:advance-proof-only")
+		p, bad := x.proof()
+		t.badProof = bad
+		return x.advance(t, 2, t.phase, p, 0, "0")
+	case 10: // stale update stamp
+		x.g.Count("dev:stale-updated-at")
+		return fmt.Sprintf("abort %s %s %s 6 * * %d", pre, c17G, c17R(c), r.Range(20, 60))
+	default: // force the believed phase (resynchronise)
+		x.g.Count("op:advance-resync")
+		return x.advance(t, 2, t.phase, c17NoProof, 0, "0")
+	}
+}
+
+func (x *c17Gen) oneCmd() string {
+	r := x.r()
+	var cands []*c17GTask
+	for _, t := range x.tasks {
+		cands = append(cands, t)
+		if !t.dead { // live tasks get most of the traffic
+			cands = append(cands, t, t, t)
+		}
+	}
+	needCreate := x.live(1) == nil || (x.metas[2].set && x.live(2) == nil)
+	if len(cands) == 0 || (needCreate && r.Chance(35)) || r.Chance(4) {
+		return x.create()
+	}
+	if r.Chance(4) { // make sure a task the generator believes finished really is terminal (free-form advance)
+		for _, t := range x.tasks {
+			if t.dead && !t.forced {
+				t.forced = true
+				x.g.Count("op:advance-force-terminal")
+				return fmt.Sprintf("advance %d %d %s 5 * ^ 40 %s 0", t.c, t.id, c17G, c17NoProof)
+			}
+		}
+	}
+	if r.Chance(3) {
+		x.g.Count("op:gc-variants")
+		return fmt.Sprintf("gc %d %d", r.Range(0, 70), r.Range(0, 3))
+	}
+	t := cands[r.Intn(len(cands))]
+	if !t.dead && r.Chance(78) {
+		x.g.Count("step:scripted")
+		return x.scripted(t)
+	}
+	x.g.Count("step:random")
+	return x.random(t)
+}
+
+func (x *c17Gen) emit(cmd string) {
+	f := strings.SplitN(cmd, " ", 2)
+	if len(f) == 1 {
+		x.g.Op(f[0], "")
+		return
+	}
+	x.g.Op(f[0], "%s", f[1])
+}
+
 func genC17(g *Gen) {
-	g.Case()
+	for k := 0; k < g.N; k++ {
+		g.Case()
+		x := &c17Gen{g: g}
+		r := g.R
+		x.emit(x.setMeta(1, "fresh"))
+		if r.Chance(60) {
+			x.emit(x.setMeta(2, "fresh"))
+		}
+		n := r.Range(15, 50)
+		for i := 0; i < n; i++ {
+			switch {
+			case r.Chance(4):
+				c := 1 + r.Intn(2)
+				mode := []string{"bump", "bump", "bump", "foreignfence", "fresh", "junk"}[r.Intn(6)]
+				g.Count("env:setmeta-" + mode)
+				x.emit(x.setMeta(c, mode))
+			case r.Chance(9):
+				k := r.Range(2, 3)
+				cmds := make([]string, k)
+				for j := range cmds {
+					cmds[j] = x.oneCmd()
+				}
+				g.Count(fmt.Sprintf("line:batch-%d", k))
+				x.emit("batch " + strings.Join(cmds, " ; "))
+			default:
+				x.emit(x.oneCmd())
+			}
+		}
+	}
 }
